@@ -305,6 +305,8 @@ def correspondence(rep, rng, tier):
     run_section(rep, 'v3-api', api, line_api, impl_api, oracle_fn=oracle_api,
                 rule='PyKdebugParser().kevents / os_log_events on generated dumps')
     encs = [ct.gen_v3(rng, small=rng.random() < 0.5) for _ in range(200 if quick else 3000)]
+    for f in encs[::2]:
+        f['threads'] = ct.add_junk(rng, f['threads'])
     run_section(rep, 'encv3', encs, ct.line_enc_v3, lambda f: ct.v3_bytes(f).hex(),
                 rule='Lean Spec.encodeV3 output == the harness\'s own Python encoder, byte for byte')
 
